@@ -17,8 +17,9 @@ TYPES = ["require_mfa", "require_level", "http_challenge", "require_consent", "r
          "require_captcha", "require_reauth", "require_age_verified", "require_geo", None, 5]
 CTX_VALUES = ["<absent>", None, False, True, 0, 1, 3, 2.9, 3.0, "3", " 3 ", "3_0", "+3", "high", "", [], [1], {},
               {"k": True}, {"k": 0}, gen.NAN, gen.INF, -1, "0", 10**30, -0.0, "-1", "1e3", "3.0",
-              # numeric text at CPython's int/str conversion limit (4300 digits), 10**400 as a number
-              "9" * 4300, "9" * 4301, "-" + "1" * 4301, " 0_0" + "9" * 4298, "9" * 5000, 10**400, -(10**400), 1e308, -gen.INF]
+              10**400, -(10**400), 1e308, -gen.INF]
+# numeric text at CPython's int/str conversion limit (4300 digits): a few cases only (slow in the extracted model)
+LIMIT_TEXT = ["9" * 4300, "9" * 4301, "-" + "1" * 4301, " 0_0" + "9" * 4298, "9" * 5000]
 KEY_OF = {"require_mfa": "mfa", "require_level": "auth_level", "require_consent": "consent",
           "require_terms_accept": "tos_accepted", "require_captcha": "captcha_passed",
           "require_reauth": "reauth_age_seconds", "require_age_verified": "age_verified"}
@@ -60,6 +61,13 @@ def gen_direct(chk):
                         if decision == "deny" and v not in ("<absent>", True, 3):
                             continue
                         cases.append({"fam": "single", "decision": decision, "obligations": [ob], "ctx": ctx})
+    for v in LIMIT_TEXT:
+        cases.append({"fam": "limit", "decision": "permit", "obligations": [{"type": "require_level", "attrs": {"min": 1}}],
+                      "ctx": {"auth_level": v}})
+        cases.append({"fam": "limit", "decision": "permit", "obligations": [{"type": "require_level", "attrs": {"min": v}}],
+                      "ctx": {"auth_level": 3}})
+        cases.append({"fam": "limit", "decision": "permit", "obligations": [{"type": "require_reauth", "attrs": {"max_age": 10}}],
+                      "ctx": {"reauth_age_seconds": v}})
     # ordered pairs: first failure decides the challenge
     singles = [({"type": "require_mfa"}, {"mfa": True}), ({"type": "require_mfa"}, {}),
                ({"type": "require_level", "attrs": {"min": 2}}, {"auth_level": 3}),
